@@ -13,7 +13,8 @@ EXTENDS Engine, Monitors
 CONSTANTS Family,          \* which event alphabet (one per property family)
           CfgRole, CfgBS, CfgChunk, CfgPersist, CfgResetOnLogon, CfgResetOnLogout,
           CfgResetOnDisconnect, CfgCheckLatency, CfgHbOverride,
-          MaxIn, MaxOut    \* counters explored up to these values
+          MaxIn, MaxOut,   \* counters explored up to these values
+          MaxEp            \* store resets explored
 
 VARIABLES eng,             \* the Engine record (with the logs of the last step)
           aux,             \* monitor memory (Monitors!AuxInit / AuxNext)
@@ -85,13 +86,13 @@ GateEvents ==
 LifeEvents ==
     Lifecycle \cup {K("Stop"), K("Flush"), T("LogonTimeout"), T("LogoutTimeout"), K("Consume")}
     \cup {Snd("b1", FALSE, FALSE), Snd("b2", TRUE, FALSE)}
-    \cup {In([R("A", rs) EXCEPT !.rsf = f]) : rs \in {-1, 0, 1}, f \in {"none", "Y", "N"}}
+    \cup {In([R("A", rs) EXCEPT !.rsf = f]) : rs \in {-1, 0}, f \in {"none", "Y", "N"}} \cup {In(R("A", 1))}
     \cup {In([R("A", 0) EXCEPT !.app = "rejlogon"]), In([R("A", 0) EXCEPT !.cid = "wrong"])}
     \cup {In(R("5", rs)) : rs \in {-1, 0, 1}}
     \cup {In(R("D", rs)) : rs \in {0, 1}}
     \cup {In(R("0", 0)), In([R("D", 0) EXCEPT !.cid = "wrong"]), In(R("garbled", 0))}
     \cup {In([R("4", 0) EXCEPT !.rn = rn]) : rn \in {-1, 0, 2}}
-    \cup {In([PossDup(R("4", rs)) EXCEPT !.gf = "Y", !.rn = rn]) : rs \in {-1, 0, 1}, rn \in {-1, 0, 2}}
+    \cup {In([PossDup(R("4", rs)) EXCEPT !.gf = "Y", !.rn = rn]) : rs \in {-1, 0}, rn \in {-1, 0, 2}}
     \cup {Pre(R("D", 0)), Pre(R("5", 0)), Pre(R("0", 0)), Pre([R("1", 0) EXCEPT !.trid = "T1"])}
 
 \* ---- family "keep": C20 (keep-alive)
@@ -126,7 +127,7 @@ Enabled(s, ev) ==
     /\ ev.k = "Consume" => s.inbuf # <<>>
     /\ ev.k = "Send" => s.nOut < MaxOut
 
-Bounded(s) == s.nIn <= MaxIn /\ s.nOut <= MaxOut
+Bounded(s) == s.nIn <= MaxIn /\ s.nOut <= MaxOut /\ s.ct <= MaxEp
 
 ObsOf(s0, ev, s1) == Obs(Post(s0), ev, s1.out, s1.cb, s1.tm, Post(s1), s1.cfg)
 
@@ -156,15 +157,8 @@ O == ObsOf(eng, lastEv', eng')
 \* violate, each restricted to the situation in which it does, so that TLC keeps checking
 \* everything else.  The same situations are the signatures matched on real traces.
 Known(p, c, o) ==
-    CASE p = "C04" /\ c = "nothingKeptIsLost" ->
-            \* KF-T: when the requested range completes, kept messages above a remaining hole are dropped
-            \/ (o.pre.st \in Recovering /\ o.post.st \notin Recovering)
-            \* KF-H: pendingTimeout wraps resendState; a too-high message then starts a fresh recovery
-            \/ o.pre.st = "pending(resend)"
-      [] p = "C04" /\ c \in {"noExtraRequest", "keepsEarly"} -> o.pre.st = "pending(resend)"
-      [] p = "C20" /\ c = "recoveryUndisturbed" -> o.pre.st = "pending(resend)"
-      [] p = "C08" /\ c \in {"deliverInsideLogon", "oneLogoutPerPeriod"} ->
-            \* KF-O: frames still buffered when the engine disconnects are processed after OnLogout
+    CASE p = "C08" /\ c \in {"deliverInsideLogon", "oneLogoutPerPeriod"} ->
+            \* KF-O: frames still buffered when the connection ends are processed after OnLogout
             o.pre.inbuf > 0
       [] p = "C20" /\ c = "disconnectOnSecondSilence" -> o.pre.inbuf > 0
       [] OTHER -> FALSE
